@@ -8,7 +8,7 @@ from .. import gen, impl, oracle, progs, ser, stream
 
 ID = "C11"
 LEVEL = "proof"
-PROPS_MODULE = "SymmModel.Props.C11"
+PROPS_MODULE = "SymmModel.Props.C11All"
 THEOREMS = [
     "SymmModel.C11.bond_index_spec_qr",
     "SymmModel.C11.bond_index_spec_svd",
@@ -23,10 +23,13 @@ THEOREMS = [
     "SymmModel.C11.svd_reconstructs",
     "SymmModel.C11.solve_solves",
     "SymmModel.C11.qr_reconstructs_fermionic",
-    "SymmModel.C11.svd_reconstructs_fermionic"
+    "SymmModel.C11.svd_reconstructs_fermionic",
+    "SymmModel.C11.eigh_reconstructs",
+    "SymmModel.C11.eigh_reconstructs_fermionic",
+    "SymmModel.C11.solve_solves_fermionic"
 ]
-LEAN_FILES = ["SymmModel.Props.C11", "SymmModel.Proofs.LinalgLemmas", "SymmModel.Proofs.LinalgFactors", "SymmModel.Proofs.LinalgDense", "SymmModel.Proofs.LinalgSolve", "SymmModel.Proofs.LinalgTrunc", "SymmModel.Proofs.LinalgRecon", "SymmModel.Proofs.LinalgFermi", "SymmModel.Proofs.LinalgSolveRecon"]
-PLANNED = ["eigh_reconstructs", "solve_solves for fermionic arrays", "fermionic reconstruction through tensordot_fermionic in fused mode", "fermionic reconstruction for inputs with more than one odd-position label"]
+LEAN_FILES = ["SymmModel.Props.C11", "SymmModel.Proofs.LinalgLemmas", "SymmModel.Proofs.LinalgFactors", "SymmModel.Proofs.LinalgDense", "SymmModel.Proofs.LinalgSolve", "SymmModel.Proofs.LinalgTrunc", "SymmModel.Proofs.LinalgRecon", "SymmModel.Proofs.LinalgFermi", "SymmModel.Proofs.LinalgSolveRecon", "SymmModel.Props.C11b", "SymmModel.Props.C11All", "SymmModel.Proofs.LinalgMore", "SymmModel.Proofs.LinalgMore2", "SymmModel.Proofs.LinalgMore3", "SymmModel.Proofs.LinalgMore6"]
+PLANNED = ["fermionic reconstruction through tensordot_fermionic in fused mode", "fermionic reconstruction for inputs with more than one odd-position label"]
 RULE = ("random abelian and fermionic matrices (all symmetries; direct or obtained by fusing rank-3/4 arrays; every "
         "dualness pattern and total charge incl. odd; tall, wide, square and rank-deficient blocks; missing blocks; "
         "real/complex; pending signs): qr (plain and stabilised), svd, eigh (Hermitian charge-zero), solve. The "
